@@ -668,7 +668,9 @@ class Polyhedron(Shape3D):
         points = self.vertices[1:] - self.vertices[0]
         half_point_lengths = np.sum(points * points, axis=1) / 2
         x, resids, _, _ = np.linalg.lstsq(points, half_point_lengths, None)
-        if len(self.vertices) > 4 and not np.isclose(resids, 0):
+        if len(self.vertices) > 4 and not np.isclose(
+            resids / np.ptp(self.vertices, axis=0).max() ** 4, 0
+        ):
             raise RuntimeError("No circumsphere for this polyhedron.")
 
         return Sphere(np.linalg.norm(x), x + self.vertices[0])
@@ -708,7 +710,9 @@ class Polyhedron(Shape3D):
         b = np.sum(self.normals * self.vertices[first_vertices], axis=-1)
         a = np.hstack((self.normals, np.ones((self.num_faces, 1))))
         x, resids, _, _ = np.linalg.lstsq(a, b, None)
-        if len(self.vertices) > 4 and not np.isclose(resids, 0):
+        if len(self.vertices) > 4 and not np.isclose(
+            resids / np.ptp(self.vertices, axis=0).max() ** 2, 0
+        ):
             raise RuntimeError("No insphere for this polyhedron.")
 
         return Sphere(x[3], x[:3])
